@@ -37,6 +37,8 @@ func main() {
 			props.DebugPool()
 		case "startup":
 			props.DebugStartup()
+		case "runone":
+			props.DebugRunOne(os.Args[3])
 		}
 	case "run":
 		if len(os.Args) < 4 {
